@@ -123,10 +123,13 @@ Definition diverted_ok_b (p : pointer) : bool :=
 
 Definition wf_element_b (e : element) : bool :=
   elem_ptr_ok_b (el_ptr e) && wf_valmap_b (el_temps e) && in_i32 (el_fstart e).
+(* threads and call stacks are never empty in a running story (the loader may refuse empty ones) *)
 Definition wf_thread_b (t : thread) : bool :=
-  forallb wf_element_b (th_cs t) && prev_ok_b (th_prev t) && (th_index t <? 9223372036854775808)%N.
+  negb (is_nil (th_cs t))
+  && forallb wf_element_b (th_cs t) && prev_ok_b (th_prev t) && (th_index t <? 9223372036854775808)%N.
 Definition wf_callstack_b (cs : callstack) : bool :=
-  forallb wf_thread_b (cs_threads cs) && (cs_counter cs <? 9223372036854775808)%N.
+  negb (is_nil (cs_threads cs))
+  && forallb wf_thread_b (cs_threads cs) && (cs_counter cs <? 9223372036854775808)%N.
 
 End Tree.
 
